@@ -28,7 +28,7 @@ fixtab = "\n".join(f"| `{l.split(' ',1)[0]}` | {l.split(' ',1)[1]} |" for l in f
 tpl = re.sub(r"\| commit \| what \|\n\|---\|---\|\n(?:\|.*\|\n)+", "| commit | what |\n|---|---|\n" + fixtab + "\n", tpl)
 
 rows = []
-missed1 = []; nfi1 = []; missed3 = []; nfi3 = []; missed4 = []; nfi4 = []
+missed1 = []; nfi1 = []; missed3 = []; nfi3 = []; missed4 = []; nfi4 = []; missed5 = []; nfi5 = []
 for f in sorted(glob.glob(V + '/seeded/*/meta.json')):
     m = json.load(open(f))
     ch = re.sub(r'^(Change|C\d\d change|#+)\s*\d*\s*[-:–—.]?\s*', '', m['change']).strip()
@@ -42,7 +42,10 @@ for f in sorted(glob.glob(V + '/seeded/*/meta.json')):
         first = 'caught'
     else:
         first = 'caught' if fr['concrete_failing_input_found'] else ('caught, no input' if fr['detected'] else 'missed')
-    if m.get('round') == 4:
+    if m.get('round') == 5:
+        if first == 'missed': missed5.append(m['id'])
+        if first == 'caught, no input': nfi5.append(m['id'])
+    elif m.get('round') == 4:
         if first == 'missed': missed4.append(m['id'])
         if first == 'caught, no input': nfi4.append(m['id'])
     elif m.get('round') == 3:
@@ -61,11 +64,11 @@ for f in sorted(glob.glob(V + '/seeded/*/meta.json')):
         stren.append(f"* **{m['id']}** – {sw}")
 seeded = f'''### 13.7 Seeded breaking changes and which checks catch them
 
-One hundred and sixty changes, eight per property, in four rounds.  Each was written by a fresh sub-agent that saw
+Two hundred changes, ten per property, in five rounds.  Each was written by a fresh sub-agent that saw
 only the text of one property and a scratch worktree (nothing from /verif), was asked for a
 plausible maintainer edit that needs something specific to manifest, and was confirmed by hand in
 a scratch worktree: applies to HEAD, builds, the whole existing suite passes, the demonstration
-fails with the change and passes without it (the demonstrations of C15-4, C15-6 and C15-8 need `-race`).  They are kept
+fails with the change and passes without it (the demonstrations of C15-4, C15-6 and C15-8 need `-race`; five patches of earlier rounds that touch `nativeMapToObject` were rebased onto fix `7308254` and confirmed again).  They are kept
 under `/verif/seeded/<id>/` (`patch.diff`, `demo_test.go`, `notes.md`, `meta.json`).  Each was
 applied to /repo (`git -C /repo apply`), the quick check of its property run, and the tree
 restored (`git -C /repo checkout -- .`).
@@ -108,8 +111,28 @@ connection.  Each miss was closed by a family that covers the *class* (see the l
 unusual mapping, `reserved_looking_keys`, `percent_in_paths`, `degenerate_names`, `cut_numbers`,
 `directive_other_case`, the body "as a client receives it", the request kind `loadconc`, …), and
 where the model had no word for the input it got one (nil function values, a fourth array
-function, aliasing data values, relative `EvaluateFile`, `WRITE`/`RM`).  Now all one hundred and
-sixty are reported by the quick check of their own property with a concrete failing input as replay.
+function, aliasing data values, relative `EvaluateFile`, `WRITE`/`RM`).
+
+Round 5 (ids `-9`, `-10`) listed to the sub-agents everything the harness had learned so far and
+asked for what is *still* outside.  {40 - len(missed5) - len(nfi5)} of 40 were caught at once with a concrete failing input, {len(nfi5)}
+only as a broken obligation or correspondence ({', '.join(nfi5)}) and {len(missed5)} were missed.  This
+round's carriers: state that a *failed* call of one particular kind leaves behind (a lexer pooled
+while inside a directive, a loop buffer released twice), caches keyed by something that is almost
+an identity (a token's position across files, the printed form of a slot body, `reflect.Type.String()`,
+the spelling of a field that matched last time), values outside the everyday range (float literals
+with 23 and 324 decimals, 2^63 as a float, U+FFFD, zero-width characters, embedded structs, index
+brackets and component arguments that span lines), API use that is legal and rare (a configuration
+struct reused by the caller, a symbolic link as the file to evaluate, a directory name asked for as a
+template, functions called from the error page, a function that edits its argument, a function with a
+memory).  One of the agents also reported a defect of the unchanged tree it had stumbled over — maps
+with non-string keys, see fix `7308254` — which no generator of mine had produced because the data
+language of the harness only had string keys.  What was added is listed below; the general lessons:
+(6) the renders the worker performs before every request include rejected templates of every kind and
+rotate, so that each is the last one before some request; (7) the worker scribbles over what it
+passed to the API (the configuration struct) once the call has returned; (8) expected outputs are
+attached to repetition families too, because twenty repetitions can agree and all be wrong.  Now all
+two hundred are reported by the quick check of their own property with a concrete failing input as
+replay.
 
 What was added for the ones not caught (or caught without an input) at first:
 
